@@ -2,7 +2,12 @@
    Only statements, `exact`, Print Assumptions and non-vacuity examples here.
    Model: model/Signals.v (display/buffers.py + display/display.py WITH fixes/D11.patch, and the reference
    consumer = handlers of interface/video_sdl2.py); rectangle arithmetic and the mode table are regenerated
-   (gen/Gen_signals.v).  Pixel layer proved; character cells are compared by the harness only. *)
+   (gen/Gen_signals.v).  Pixel layer AND character-cell layer proved.  Character cells = the unicode cells of
+   VideoBuffer._dbcs_text (what get_chars(as_type=unicode) returns; the trail cell of a fullwidth DBCS character
+   is u''), which is exactly what VIDEO_UPDATE carries; attributes of blank cells are NOT carried by
+   VIDEO_CLEAR_ROWS / VIDEO_SCROLL (only the background), so attribute equality is not a property of the signals.
+   The cursor (VIDEO_MOVE_CURSOR / SHOW_CURSOR / SET_CURSOR_SHAPE) is not part of get_pixels()/get_chars() and
+   hence not of "the pixels and characters the interpreter reports": outside this property. *)
 From Coq Require Import ZArith List Bool.
 From PCB Require Import lib.PyInt gen.Gen_signals model.Signals proofs.Signals_proofs.
 Import ListNotations.
@@ -32,8 +37,9 @@ Proof. exact cover. Qed.
 Print Assumptions C35_cover.
 
 (* one operation (any of: pixel write, text update, lock/unlock, clear_rows, scroll up/down, PCOPY, page
-   switch, mode switch, rebuild) inside the envelope preserves: consumer geometry = mode geometry and
-   canvas = pixels of the visible page *)
+   switch, mode switch, rebuild) inside the envelope preserves Inv: consumer geometry = mode geometry,
+   canvas = pixels of the visible page, consumer text = unicode cells of the visible page, page flags
+   consistent, and no page has pending dirty rows unless it is locked by collect_updates() *)
 Theorem C35_step : forall s k o, Inv s k -> op_okb s o = true ->
   Inv (fst (step s o)) (consume k (sigs (snd (step s o)))).
 Proof. exact step_inv. Qed.
@@ -63,13 +69,55 @@ Theorem C35_picture_equals_state : forall s k0 ops, wf s ->
 Proof. exact session_picture. Qed.
 Print Assumptions C35_picture_equals_state.
 
+(* ... and exactly the character cells *)
+Theorem C35_text_equals_state : forall s k0 ops, wf s ->
+  ops_okb (fst (step s ORebuild)) ops = true ->
+  let r := run s (ORebuild :: ops) in
+  let k := consume k0 (sigs (snd r)) in
+  forall v, vis (fst r) = Some v ->
+  forall row col, 1 <= row <= TH (scfg (fst r)) -> 1 <= col <= TW (scfg (fst r)) ->
+  ctext k row col = txt (get_page (fst r) v) row col.
+Proof. exact session_text. Qed.
+Print Assumptions C35_text_equals_state.
+
+(* envelope, scroll range: inside the text screen the condition `to*fh <= PH` of op_okb excludes exactly a
+   scroll through the last text row of a mode whose last row is cut off; the only such mode is 720x348
+   (Hercules SCREEN 3, 25 rows of 14 lines = 350 > 348); every mode has 25 rows; the Tandy/PCjr modes (the
+   adapters where VIEW PRINT may reach row 25) have no cut-off row *)
+Theorem C35_scroll_exclusion_exact : forall c a b, cfg_ok c -> 1 <= a -> a <= b -> b <= TH c ->
+  (b * fh c <= PH c <-> ~ (b = TH c /\ PH c < TH c * fh c)).
+Proof. exact scroll_range_exact. Qed.
+Print Assumptions C35_scroll_exclusion_exact.
+
+Theorem C35_cut_off_modes :
+  filter (fun t => let c := cfg_of_tuple t in PH c <? TH c * fh c) mode_table = [(348, 720, 25, 80, 14, 9)]
+  /\ forallb (fun t => TH (cfg_of_tuple t) =? 25) mode_table = true
+  /\ forallb (fun t => let c := cfg_of_tuple t in (PH c =? TH c * fh c) && cfg_okb c) tandy_mode_table = true.
+Proof. exact cut_off_modes. Qed.
+Print Assumptions C35_cut_off_modes.
+
+(* envelope, callers (textscreen.py; shapes AST-checked by gen_signals): the scroll area stays inside the
+   screen for all VIEW PRINT / mode-switch histories, never reaches row 25 except on Tandy/PCjr, so the calls
+   clear_view, clear, redraw_bar and scroll() (from_row=None) are inside the envelope in every mode *)
+Theorem C35_scroll_area_invariant : forall tandy ops a, sa_ok tandy a -> Forall (sa_op_ok tandy) ops ->
+  sa_ok tandy (fold_left sa_step ops a).
+Proof. exact sa_inv. Qed.
+Print Assumptions C35_scroll_area_invariant.
+
+Theorem C35_scroll_area_calls_in_envelope : forall tandy a c, sa_ok tandy a -> cfg_ok c -> TH c = 25 ->
+  (tandy = true -> PH c = TH c * fh c) ->
+  in_rows c (sa_top a) (sa_bottom a) = true /\ in_rows c 1 (sa_height a) = true
+  /\ in_rows c (sa_height a) (sa_height a) = true /\ (sa_bottom a * fh c <=? PH c) = true.
+Proof. exact scroll_area_calls_in_envelope. Qed.
+Print Assumptions C35_scroll_area_calls_in_envelope.
+
 (* D11: without the fill added by fixes/D11.patch the scroll breaks the invariant for a non-zero background
    (COLOR ,1: CLS: scroll): display shows 1, emulator reports 0; with the fix both are 1 *)
 Theorem C35_scroll_refuted_unfixed :
   (cfg_ok d11_cfg /\ geom_ok d11_cfg d11_cons /\ agree d11_cfg d11_page d11_cons) /\
   (let r := scroll_up_unfixed d11_cfg 0 d11_page 1 2 1 [] zimg in
    canvas (consume d11_cons (sigs (snd r))) 1 0 = 1 /\ px (fst r) 1 0 = 0) /\
-  (let r := scroll_up d11_cfg 0 d11_page 1 2 1 [] zimg in
+  (let r := scroll_up d11_cfg 0 d11_page 1 2 1 [] tblank zimg in
    canvas (consume d11_cons (sigs (snd r))) 1 0 = 1 /\ px (fst r) 1 0 = 1).
 Proof. exact (conj d11_start_agrees (conj scroll_unfixed_refuted scroll_fixed_same_witness)). Qed.
 Print Assumptions C35_scroll_refuted_unfixed.
@@ -78,14 +126,17 @@ Print Assumptions C35_scroll_refuted_unfixed.
    operation kind, is inside the envelope, and ends with a non-trivial picture that the consumer reproduces *)
 Definition ex_cfg : cfg := mkCfg 4 6 2 3 2 2.
 Definition ex_img : mat := fun y x => 10 + 3 * y + x.
+Definition ex_timg : tmat := fun r col => 100 + 10 * r + col.
 Definition ex_ops : list op :=
-  [ OClearRows 0 1 2 7 [] zimg; OUpdate 0 1 1 2 [(1, 1, 3)] ex_img; OLock 0; OUpdate 0 2 2 2 [] ex_img;
-    OUpdate 0 1 3 3 [] ex_img; OUnlock 0 [(1, 3, 3); (2, 2, 3)] (fun y x => 40 + y + x);
+  [ OClearRows 0 1 2 7 [] tblank zimg; OUpdate 0 1 1 2 [(1, 1, 3)] ex_timg ex_img; OLock 0;
+    OUpdate 0 2 2 2 [] ex_timg ex_img; OUpdate 0 1 3 3 [] ex_timg ex_img;
+    OUnlock 0 [(1, 3, 3); (2, 2, 3)] (fun r col => 200 + r + col) (fun y x => 40 + y + x);
     OPixSet 0 1 3 2 5 (-1) (fun y x => 60 + y * x); OPixSet 0 4 4 0 0 5 zimg;
-    OScrollUp 0 1 2 9 [] zimg; OScrollDown 0 1 2 8 [] zimg; OScrollUp 0 2 2 6 [] zimg; OScrollDown 0 2 1 4 [] zimg;
-    OUpdate 1 1 1 1 [] ex_img; OCopyFrom 1 0; OPixSet 1 0 1 0 6 3 (fun _ _ => 3); OSetPage 1;
-    OSetMode (mkCfg 4 4 2 2 2 2) 1; OClearRows 0 1 2 5 [] zimg; OSetPage 0; OUpdate 0 2 1 2 [] ex_img;
-    ORebuild ].
+    OScrollUp 0 1 2 9 [] tblank zimg; OScrollDown 0 1 2 8 [] tblank zimg; OScrollUp 0 2 2 6 [] tblank zimg;
+    OScrollDown 0 2 1 4 [] tblank zimg;
+    OUpdate 1 1 1 1 [] ex_timg ex_img; OCopyFrom 1 0; OPixSet 1 0 1 0 6 3 (fun _ _ => 3); OSetPage 1;
+    OSetMode (mkCfg 4 4 2 2 2 2) 1; OClearRows 0 1 2 5 [] tblank zimg; OSetPage 0;
+    OUpdate 0 2 1 2 [] ex_timg ex_img; ORebuild ].
 
 Example C35_nonvacuous :
   wf (init_st ex_cfg 2 0) /\
@@ -94,7 +145,9 @@ Example C35_nonvacuous :
   let k := consume cons0 (sigs (snd r)) in
   vis (fst r) = Some 0%nat /\
   sample (canvas k) 4 4 = sample (px (get_page (fst r) 0)) 4 4 /\
-  sample (canvas k) 4 4 = [[5; 5; 5; 5]; [5; 5; 5; 5]; [16; 17; 18; 19]; [19; 20; 21; 22]].
+  sample (canvas k) 4 4 = [[5; 5; 5; 5]; [5; 5; 5; 5]; [16; 17; 18; 19]; [19; 20; 21; 22]] /\
+  tsample (ctext k) 2 2 = tsample (txt (get_page (fst r) 0)) 2 2 /\
+  tsample (ctext k) 2 2 = [[32; 32]; [121; 122]].
 Proof.
   split; [apply init_st_wf; [apply cfg_okb_ok; reflexivity | repeat constructor]|].
   split; [vm_compute; reflexivity|].
